@@ -21,11 +21,11 @@ from ..treeutil import K, dump
 PROP = "C03"
 LEVEL = "exploration"
 
-CONT = ["x", "{{t|a}}", "[[l|m]]", "'''b'''", "''i''", '<span class="c">s</span>', "a!b", "x y"]
+CONT = ["x", "{{t|a}}", "[[l|m]]", "'''b'''", "''i''", '<span class="c">s</span>', "a!b", "x y", "{{lc:X}}", "{{#if:x|y}}"]
 ATTRS = [{}, {"class": "c"}, {"style": "s-1", "id": "i2"}, {"class": "a b"}]
 HTML_SKIP = {"pre", "nowiki", "section", "noinclude", "includeonly", "onlyinclude", "math", "chem", "ce", "hiero", "score",
              "syntaxhighlight", "source", "templatestyles", "timeline", "gallery", "imagemap", "inputbox", "poem"}
-ARG_ATOMS = ["text", " pad ", "{{c|1}}", "[[n]]", "k=v", "", "a b", "x:y", "2", "\n x=1", "\n* b", "\n", ":c", "[[n]]\n q"]
+ARG_ATOMS = ["text", " pad ", "{{c|1}}", "[[n]]", "k=v", "", "a b", "x:y", "2", "\n x=1", "\n* b", "\n", ":c", "[[n]]\n q", "{{lc:X}}", "{{#if:x|y|z}}"]
 
 
 def attrstr(a, quote='"'):
@@ -414,7 +414,7 @@ def main(run):
     cov = {
         "distinct_nontrivial": len(run.acc.sets.get("inputs", ())),
         "rule": "tables: rows x columns in 1..%d, newline / inline (|| !!) separators, 4 caption forms, 3 table x 2 row x 4 cell attribute "
-                "maps, 3 header patterns, affine content assignments cell(i,j)=K[(a+b*i+c*j) mod 8] over 8 contents (text, template, "
+                "maps, 3 header patterns, affine content assignments cell(i,j)=K[(a+b*i+c*j) mod 10] over 10 contents (text, template, two colon-form parser functions, "
                 "piped link, bold, italic, inline HTML, text with '!', two words); the full product of contents for 2x2 grids; every "
                 "paired and void tag of the allowed-HTML table (special-purpose tags excluded) x 4 attribute maps x 2 quote styles x 6 "
                 "contents; every ordered pair (outer, inner) of those tags where the declared parents/content data permit the nesting, "
